@@ -2,9 +2,14 @@
 //!
 //! Three streams:
 //!  * `depth`   nesting-depth sweeps in child processes (a stack overflow is an abort, not a panic)
-//!  * `total`   totality + strict/lenient agreement on hostile strings (grammar crate and QueryParser)
 //!  * `sem`     abstract queries printed with meaning-preserving noise, parsed by `QueryParser`,
 //!              executed on a small corpus and compared with a naive evaluation on model documents
+//!  * `total`   totality + strict/lenient agreement on hostile strings (grammar crate and
+//!              QueryParser); the parsers run in worker processes (`--child-total`) because the
+//!              lenient parser can loop forever while allocating
+//!
+//! Child modes (same binary): `--child-depth <kind> <n> <api>`, `--child-total`, `--child-one <api#>`.
+//! Debug knobs: `C16_ONLY=depth|sem|total`, `C16_TOTAL_N=<cases>`, `C16_DUMP=<file>` (all violations).
 #[path = "c16_util/mod.rs"]
 mod util;
 
@@ -293,13 +298,15 @@ fn repairs() -> &'static [(&'static str, regex::Regex, &'static str)] {
         let mk = |name, re: &str, to| (name, regex::Regex::new(re).expect("static regex"), to);
         vec![
             mk("lenient-mishandles-whitespace-after-set-open-bracket", r"(IN\s*\[)\s+", "$1"),
-            mk("lenient-mishandles-whitespace-before-range-close-bracket", r"\s+([\]\}])", "$1"),
+            mk("lenient-mishandles-whitespace-before-range-close-bracket", r"([^\s\[\{])\s+([\]\}])", "$1$2"),
             mk("lenient-needs-a-blank-after-NOT", r"NOT[\t\r\n]\s*", "NOT "),
         ]
     })
 }
 
 const ADJACENCY: &str = "lenient-needs-whitespace-between-adjacent-operands";
+/// operand separation costs one strict parse per character
+const ATTRIBUTION_MAX_CHARS: usize = 1500;
 
 fn strict_same(text: &str, strict: &qg::UserInputAst) -> bool {
     matches!(guarded(|| qg::parse_query(text)), Ok(Ok(s2)) if &s2 == strict)
@@ -312,7 +319,7 @@ fn lenient_agrees(text: &str, strict: &qg::UserInputAst) -> bool {
 /// adds a blank at every place where the strict grammar does not care (never next to existing
 /// whitespace, never just inside a range / set bracket)
 fn separate_operands(text: &str, strict: &qg::UserInputAst) -> String {
-    if text.chars().count() > 400 {
+    if text.chars().count() > ATTRIBUTION_MAX_CHARS {
         return text.to_string();
     }
     let mut cur: Vec<char> = text.chars().collect();
@@ -398,6 +405,10 @@ fn grammar_agreement(
         detail["agrees_after_rewriting_to"] = json!(clip(repaired));
         detail["all_causes_in_this_input"] = json!(causes);
         return causes.into_iter().map(|c| (format!("agree:grammar:strict-ok-{c}"), detail.clone())).collect();
+    }
+    if input.chars().count() > ATTRIBUTION_MAX_CHARS {
+        // too long for the cause analysis: one class instead of an arbitrary symptom
+        return vec![("agree:grammar:strict-ok-lenient-disagrees:not-attributed-long-input".to_string(), detail)];
     }
     vec![(format!("agree:grammar:strict-ok-{symptom}"), detail)]
 }
@@ -875,6 +886,36 @@ fn sem_case(case: u64, rng: &mut Rng, rep: &mut Report, queries_per_corpus: usiz
                     Err(p) => rep.violation(format!("sem:panic:{}", psig(&p)), json!({"query": text, "panic": p.message})),
                 }
             }
+            continue;
+        }
+        // `field:*` (exists): the grammar crate defines it, QueryParser does not document it, so
+        // only the syntax tree is checked and what QueryParser does with it is recorded
+        if rng.chance(1, 50) {
+            let field = *rng.pick(&["title", "u", "js.k", "tag", "d"]);
+            let text = format!("{field}:{}*", if rng.bool() { " " } else { "" });
+            let want = format!("$exists(\"{field}\")");
+            match guarded(|| (qg::parse_query(&text), qg::parse_query_lenient(&text))) {
+                Ok((Ok(s), (l, e))) => {
+                    if format!("{s:?}") != want || format!("{l:?}") != want || !e.is_empty() {
+                        rep.violation(
+                            "sem:exists:field-star-not-read-as-exists",
+                            json!({"query": text, "strict": format!("{s:?}"), "lenient": format!("{l:?}"),
+                                   "lenient_errors": e.iter().map(|x| x.message.clone()).collect::<Vec<_>>()}),
+                        );
+                    } else {
+                        rep.count("sem:exists_syntax_checked", 1);
+                        rep.nontrivial(format!("exists|{field}"));
+                    }
+                }
+                Ok((Err(_), _)) => rep.violation("sem:exists:field-star-rejected-by-grammar", json!({"query": text})),
+                Err(p) => rep.violation(format!("sem:panic:{}", psig(&p)), json!({"query": text, "panic": p.message})),
+            }
+            match guarded(|| qp_dis.parse_query(&text)) {
+                Ok(Ok(q)) => rep.observe("sem:exists_in_QueryParser", format!("accepted:{}", clip(format!("{q:?}")).chars().take(40).collect::<String>())),
+                Ok(Err(e)) => rep.observe("sem:exists_in_QueryParser", format!("rejected:{}", qp_error_class(&e))),
+                Err(p) => rep.violation(format!("sem:panic:{}", psig(&p)), json!({"query": text, "panic": p.message})),
+            }
+            rep.observe("sem:features", "exists(syntax only)");
             continue;
         }
         let node = world.gen_node(rng, 0);
@@ -1667,14 +1708,15 @@ fn main() {
     simple_finish(
         &ctx,
         rep,
-        "total: case = one generated string (classes: random UTF-8, lossy byte soup, metacharacter soup, mutations and every prefix of valid queries, unbalanced quotes/brackets, long inputs, nesting <= 200) fed to grammar parse_query/parse_query_lenient and to 4 QueryParser configurations (strict + lenient); non-trivial = the string contains grammar metacharacters/keywords; distinct = input class x character-class skeleton (first 28). sem: case = one corpus (1-40 docs, 1-2 segments, all field types) with 10/25 abstract queries, each printed with random whitespace/escaping/quoting/redundant parentheses/boosts, parsed in disjunction and conjunction mode and compared (Count and DocSetCollector via id fast field) with a naive evaluation on the model documents; non-trivial = accepted by both parsers; distinct = set of grammar features in the query. depth: child-process sweeps of 6 nesting shapes x 4 entry points.",
+        "total: case = one generated string (classes: random UTF-8, lossy byte soup, metacharacter soup, valid queries, their mutations, every prefix of one, unbalanced quotes/brackets, splices, keyword/whitespace variants, long inputs up to 1 MB, nesting <= 200) fed - inside memory-capped worker processes, so that hangs, unbounded allocation and stack overflows are survivable and attributable - to grammar parse_query/parse_query_lenient and to 4 QueryParser configurations (strict + lenient); non-trivial = the string contains grammar metacharacters/keywords; distinct = input class x character-class skeleton (first 28). sem: case = one corpus (1-40 docs, 1-2 segments, every field type, typed fields INDEXED or INDEXED|FAST) with 10/25 abstract queries, each printed with random whitespace/escaping/quoting/case/redundant parentheses/boosts, parsed in disjunction and conjunction mode and compared (Count and DocSetCollector via the id fast field) with a naive evaluation on the model documents, failing queries are shrunk; non-trivial = accepted by both parsers with the expected match set; distinct = set of grammar features in the query. depth: child-process sweeps of 6 nesting shapes x 4 entry points on an 8 MB main-thread stack.",
         ctx.scale(500, 20_000),
         &[
-            "documented grammar = doc comment of tantivy::query::QueryParser; only forms it defines are generated in the semantic stream (NOT only as a synonym of '-' inside an occur list; field:* (exists) and field:(group) only in the totality stream because QueryParser does not document them)",
+            "documented grammar = doc comment of tantivy::query::QueryParser; only forms it defines are generated in the semantic stream (NOT only as a synonym of '-' inside an occur list, as the grammar crate's own tests define it; field:* (exists) only at syntax-tree level and field:(group) only in the totality stream because QueryParser does not document them; a query made only of excluded clauses must be rejected with AllButQueryForbidden)",
+            "meaning-preserving noise = blanks/tabs/newlines between operands and after ':' (only blanks before ':'), a literal blank after AND/OR/NOT, bare words with backslash escapes or single/double quotes with redundant escapes, ASCII case changes on tokenized text, redundant parentheses, boosts",
             "strict and lenient QueryParser results are compared after undoing LogicalAst::simplify (same-occur child clauses spliced into the parent), which only the strict path applies",
-            "QueryParser-level agreement is checked only on inputs where the two grammar-level parsers already agree, so one grammar disagreement is reported once",
-            "phrase slop is only generated for two-term phrases (|pos_a + 1 - pos_b| <= slop, PhraseQuery::set_slop doc); text tokens follow the default tokenizer (split on non-alphanumeric, lower-cased)",
-            "a child killed by a signal is read as stack overflow (Rust's guard-page handler aborts with SIGABRT/SIGSEGV)",
+            "QueryParser-level agreement is checked only on inputs where the two grammar-level parsers already agree, so one grammar disagreement is reported once; a grammar disagreement is named after its cause when rewriting that detail (blank after '[' of a set, blank before a closing range bracket, blank after NOT, blanks between adjacent operands) makes the parsers agree while the strict tree stays the same, otherwise after its first symptom",
+            "phrase slop is only generated for two-term phrases (|pos_a + 1 - pos_b| <= slop, PhraseQuery::set_slop doc); text tokens follow the default tokenizer (split on non-alphanumeric, lower-cased); JSON literals are integers, bools or alphabetic words",
+            "a worker without an answer is a verdict only if a fresh one-shot process running a single entry point reproduces it (30 s CPU limit, 384 MB address space); a child killed by a signal with 'stack overflow' on stderr is a stack overflow",
         ],
     );
 }
